@@ -2,6 +2,7 @@ package verifworld
 
 import (
 	"fmt"
+	metav1 "k8s.io/apimachinery/pkg/apis/meta/v1"
 	"strings"
 
 	vs "metacontroller/pkg/internal/verifsim"
@@ -170,7 +171,31 @@ func PropC06(c *vs.Case, f Factory, kind string) error {
 			c.Class("owned-child-missing-from-cache")
 		}
 	}
+	// The server may refuse the in-place PUT of a child (validation of an immutable field, a conflict, an
+	// admission webhook, an internal error). Whatever the refusal, the strategy still decides the verb: a refused
+	// PUT is not answered with a DELETE, and the other children are handled as ever.
+	if c.Prob(1, 5) {
+		codes := []struct {
+			code   int
+			reason metav1.StatusReason
+		}{{422, metav1.StatusReasonInvalid}, {409, metav1.StatusReasonConflict}, {403, metav1.StatusReasonForbidden},
+			{500, metav1.StatusReasonInternalError}, {400, metav1.StatusReasonBadRequest}}
+		pick := codes[c.Int(len(codes))]
+		childRes := map[string]bool{}
+		for _, r := range env.ChildResources() {
+			childRes[r] = true
+		}
+		env.W.Sim.Before = func(r *vs.Request) *vs.Fault {
+			isParent := r.Def.Name() == scn.Cfg.ParentResource && r.Name == scn.ParentName()
+			if r.Verb == "update" && r.Subresource == "" && childRes[r.Def.Name()] && !isParent {
+				return &vs.Fault{Code: pick.code, Reason: pick.reason}
+			}
+			return nil
+		}
+		c.Class("child-put-refused-%d", pick.code)
+	}
 	t := env.Sync()
+	env.W.Sim.Before = nil
 	if t.Panic != "" {
 		return vs.Violf("C06/panic", "panic: %s", t.Panic)
 	}
